@@ -42,6 +42,16 @@ Theorem C19_pagemap :
   forall b, b < 16 -> page_from_mem b = spec_page_from_mem b.
 Proof. exact pagemap_table. Qed.
 
+(* what may be lost: an occurrence [a, a+n) inside a tiled mapping starts in exactly one chunk, and either
+   lies wholly inside that chunk (then only the fetch cap can hide it) or straddles the chunk's end *)
+Theorem C19_occurrence_in_one_chunk :
+  forall start len l a n,
+    Tiles start len l -> 0 < n -> start <= a -> a + n <= start + len ->
+    exists c, In c l /\ in_chunk a c
+              /\ (forall c', In c' l -> in_chunk a c' -> c' = c)
+              /\ (a + n <= fst c + snd c \/ (a < fst c + snd c < a + n)).
+Proof. exact occurrence_in_one_chunk. Qed.
+
 (* non-vacuity: a concrete region meets the hypotheses of C19_chunks_tile *)
 Example C19_tile_example :
   Tiles 65536 12288 (walk 4 {| chunk := Some 5000; max_fetch := 100; page := 4096 |}
@@ -56,3 +66,4 @@ Print Assumptions C19_next_region.
 Print Assumptions C19_fetch_cap.
 Print Assumptions C19_reset.
 Print Assumptions C19_pagemap.
+Print Assumptions C19_occurrence_in_one_chunk.
